@@ -3,7 +3,12 @@
 (* (initial heap descriptors, steps with the specification's expected       *)
 (* outcome) to IOEnv.GEN_OUT.                                               *)
 EXTENDS MC_Ufunc, Json, IOUtils, CSV
-Emit == hist # <<>> => CSVWrite("%1$s", <<ToJson([heap0 |-> heap0, hist |-> hist])>>, IOEnv.GEN_OUT)
+\* the same_kind table of the specification, printed once, for the replayer's dtype pairs
+CastKinds == {"b1", "uint", "int", "f2", "f4", "f8", "f16", "c8", "c16", "c32", "obj"}
+EmitTable == (hist = <<>> /\ heap0 = <<"Signal">>) =>
+               CSVWrite("%1$s", <<ToJson([cast_table |-> {<<a, b>> \in CastKinds \X CastKinds : SameKind(a, b)}])>>,
+                        IOEnv.GEN_OUT)
+Emit == EmitTable /\ hist # <<>> => CSVWrite("%1$s", <<ToJson([heap0 |-> heap0, hist |-> hist])>>, IOEnv.GEN_OUT)
 \* chains: only complete behaviours (prefixes are contained in them)
 EmitLeaf == Len(hist) = MaxDepth => Emit
 =============================================================================
